@@ -189,15 +189,13 @@ Definition senv_of (E : fenv) : fenv :=
 (* ------------------------------------------------ sympy semantics over Q *)
 Record qenv := { qvar : string -> Q; qfun : string -> list Q -> Q }.
 
-Fixpoint qpow_nat (a : Q) (n : nat) : Q :=
-  match n with O => 1%Q | S k => (a * qpow_nat a k)%Q end.
 Definition q_is_int (b : Q) : bool := Qeq_bool (inject_Z (Qfloor b)) b.
 Definition qdiv (a b : Q) : option Q := if Qeq_bool b 0 then None else Some (a / b)%Q.
+(* integer powers only (Qpower: binary exponentiation, reciprocal for negative exponents) *)
 Definition qpow (a b : Q) : option Q :=
   if q_is_int b then
     let k := Qfloor b in
-    if 0 <=? k then Some (qpow_nat a (Z.to_nat k))
-    else if Qeq_bool a 0 then None else Some (/ qpow_nat a (Z.to_nat (- k)))%Q
+    if (k <? 0) && Qeq_bool a 0 then None else Some (Qpower a k)
   else None.     (* irrational / complex results are outside the model *)
 (* sympy Mod(p, q) = p - q*floor(p/q): the result has the sign of the divisor *)
 Definition qmod (a b : Q) : option Q :=
@@ -380,7 +378,7 @@ Fixpoint norm (s : sexpr) {struct s} : option poly :=
           | Mul => Some (pmul p q)
           | Div => None
           | Pow => match is_const q with
-                   | Some k => if 0 <=? k then Some (ppow p (Z.to_nat k)) else None
+                   | Some k => if (0 <=? k) && (k <=? 64) then Some (ppow p (Z.to_nat k)) else None
                    | None => None
                    end
           end
